@@ -56,7 +56,7 @@ def main():
         engines=[dict(name="coq", path="coq/", serves_properties=sorted(have),
                       kind_free_text="Coq 8.16.1 development (Flocq binary64 model, hand-written skeleton, kernels regenerated from source by tools/rs2coq.py) + Rust correspondence harness")],
         checks=checks,
-        notes="See DESIGN.md. Fix commits in /repo: 0918b8c (C09/C11 IntOfLog::evaluate), f62b1ba (C16 NaN query). known_findings.json lists findings and fixes.",
+        notes="See DESIGN.md (section 11 is current). Fix commits in /repo: 0918b8c (C09/C11 IntOfLog::evaluate), f62b1ba (C16 NaN query), 985a9bd (C04/C05 f_dx sign test). known_findings.json lists the known findings D3 (C10) and D4 (C07) and the fixes.",
         not_applicable=na)
     json.dump(man, open(os.path.join(ROOT, "MANIFEST.json"), "w"), indent=1)
     print("claimed:", sorted(have), "not claimed:", [x["property_id"] for x in na])
